@@ -89,6 +89,20 @@ class Gen:
             fz = r.random() < 0.5
             return ['Set', fz, [(['Str', v] if isinstance(v, str) else ['Lit', v]) for v in vals]], \
                 {'k': 'set', 'fz': fz, 'id': self.fid(), 'items': [vals[0]]}
+        if r.random() < 0.12:
+            # a general key spec LISTED BEFORE an Optional key with a default, and a target that has the optional key: the general
+            # key takes the item, the target's value stays, the default is not filled in
+            gen = r.choice([['Type', 'str'], ['Type', 'object']])
+            key = r.choice(['o1', 'o2'])
+            val = r.choice([5, 'present', None, 0])
+            es = [[gen, ['Type', 'object']], [['Optional', key, ['Lit', 'dflt']], ['Type', 'object']]]
+            if r.random() < 0.3:
+                es.reverse()
+            items = [[key, val]] if r.random() < 0.8 else []
+            if r.random() < 0.5:
+                items.append(['zz', 1])
+            r.shuffle(items)
+            return ['Dict', False, es], {'k': 'dict', 'od': False, 'id': self.fid(), 'items': items}
         es, items = [], []
         used = set()
         for _ in range(r.randint(1, 3)):
